@@ -770,6 +770,10 @@ func runDECODEBOUNDS(c *Ctx) {
 						}
 						return false
 					})
+					if !ok && dbBoundedByCallee(sl, bnd) {
+						c.OK(P.InstrPos(sl), what, "the helper that read the length returns it without error only when at least that many bytes follow", false)
+						continue
+					}
 					if ok {
 						c.OK(P.InstrPos(sl), what, "compared with the bytes remaining on every path, too-long rejected", false)
 					} else {
@@ -781,6 +785,251 @@ func runDECODEBOUNDS(c *Ctx) {
 			}
 		}
 	}
+}
+
+// dbBoundedByCallee: the buffer sl cuts is result #i of a call of a function g of the repository and the bound is
+// the length the same call produced — its result #k, or the content of a local handed to it by address that nothing
+// rewrites afterwards —, the cut is reached only when that call's error result was nil, and g returns without error
+// only a length that was compared, as an unsigned number, with the length of the very slice it returns as result #i
+// (k <= len(buf)-used for buf[used:]). The local test `len(buf) < n` in the caller is then dead code.
+func dbBoundedByCallee(sl *ssa.Slice, bnd ssa.Value) bool {
+	xe, ok := ir.ResolveCell(sl.X).(*ssa.Extract)
+	if !ok {
+		return false
+	}
+	call, ok := xe.Tuple.(*ssa.Call)
+	if !ok || call.Call.IsInvoke() {
+		return false
+	}
+	g := ir.Callee(call.Call)
+	if g == nil || g.Blocks == nil || g.Signature.Recv() != nil || len(g.Params) != len(call.Call.Args) {
+		return false
+	}
+	ei := ir.ErrorResultIndex(g.Signature)
+	if ei < 0 || ei == xe.Index {
+		return false
+	}
+	// which length: a result of the call, or an out-parameter
+	resIdx, parIdx := -1, -1
+	switch b := bnd.(type) {
+	case *ssa.Extract:
+		if b.Tuple != ssa.Value(call) || b.Index == ei || b.Index == xe.Index {
+			return false
+		}
+		resIdx = b.Index
+	case *ssa.UnOp:
+		al, isA := b.X.(*ssa.Alloc)
+		if b.Op != token.MUL || !isA {
+			return false
+		}
+		for j, a := range call.Call.Args {
+			if a == ssa.Value(al) {
+				if parIdx >= 0 {
+					return false
+				}
+				parIdx = j
+			}
+		}
+		if parIdx < 0 {
+			return false
+		}
+		// from the call to the cut nothing else writes the local
+		if !ir.FlowFactGen(sl, func(ir.Fact) bool { return false }, func(i ssa.Instruction) bool { return i == ssa.Instruction(call) }, func(i ssa.Instruction) bool {
+			if i == ssa.Instruction(call) {
+				return false
+			}
+			switch y := i.(type) {
+			case *ssa.Store:
+				return y.Addr == ssa.Value(al) || y.Val == ssa.Value(al)
+			case ssa.CallInstruction:
+				for _, a := range y.Common().Args {
+					if a == ssa.Value(al) {
+						return true
+					}
+				}
+			case *ssa.MakeClosure:
+				for _, a := range y.Bindings {
+					if a == ssa.Value(al) {
+						return true
+					}
+				}
+			}
+			return false
+		}) {
+			return false
+		}
+	default:
+		return false
+	}
+	// the cut lies behind `err == nil` of that call
+	if !ir.FlowFact(sl, func(f ir.Fact) bool {
+		v, tnn, isNil := ir.NilTest(f.Cond)
+		if !isNil {
+			return false
+		}
+		e, isE := v.(*ssa.Extract)
+		return isE && e.Tuple == ssa.Value(call) && e.Index == ei && f.Truth != tnn
+	}, func(i ssa.Instruction) bool { return i == ssa.Instruction(call) }) {
+		return false
+	}
+	// the callee: every return that may be a success hands out a bounded length
+	unconv := func(v ssa.Value) ssa.Value {
+		if cv, ok := v.(*ssa.Convert); ok {
+			return cv.X
+		}
+		return v
+	}
+	isUnsigned := func(t types.Type) bool {
+		b, ok := t.Underlying().(*types.Basic)
+		return ok && b.Info()&types.IsUnsigned != 0
+	}
+	wideInt := func(t types.Type) bool {
+		b, ok := t.Underlying().(*types.Basic)
+		if !ok {
+			return false
+		}
+		switch b.Kind() {
+		case types.Int, types.Int64, types.Uint, types.Uint64:
+			return true
+		}
+		return false
+	}
+	isLenOf := func(v, of ssa.Value) bool {
+		lc, ok := v.(*ssa.Call)
+		if !ok {
+			return false
+		}
+		bi, isB := lc.Call.Value.(*ssa.Builtin)
+		return isB && bi.Name() == "len" && len(lc.Call.Args) == 1 && lc.Call.Args[0] == of
+	}
+	var outPar *ssa.Parameter
+	var outStores []*ssa.Store
+	if parIdx >= 0 {
+		outPar = g.Params[parIdx]
+		if outPar.Referrers() == nil {
+			return false
+		}
+		for _, r := range *outPar.Referrers() {
+			switch y := r.(type) {
+			case *ssa.Store:
+				if y.Addr != ssa.Value(outPar) {
+					return false
+				}
+				outStores = append(outStores, y)
+			case *ssa.DebugRef:
+			default:
+				return false // read, passed on or retained: not a plain out-parameter
+			}
+		}
+		if len(outStores) != 1 {
+			return false
+		}
+	}
+	n := 0
+	for _, r := range ir.Returns(g) {
+		if ei >= len(r.Results) || xe.Index >= len(r.Results) {
+			return false
+		}
+		if !ir.IsNilConst(r.Results[ei]) {
+			if ec, isC := r.Results[ei].(*ssa.Call); isC {
+				if sc := ir.Callee(ec.Call); sc != nil && (sc.String() == "errors.New" || sc.String() == "fmt.Errorf") {
+					continue // certainly an error
+				}
+			}
+			return false
+		}
+		n++
+		var v ssa.Value
+		if resIdx >= 0 {
+			if resIdx >= len(r.Results) {
+				return false
+			}
+			v = r.Results[resIdx]
+		} else {
+			st := outStores[0]
+			if !ir.FlowFactGen(r, func(ir.Fact) bool { return false }, func(i ssa.Instruction) bool { return i == ssa.Instruction(st) }, func(ssa.Instruction) bool { return false }) {
+				return false // a success that leaves the caller's local as it was
+			}
+			v = st.Val
+		}
+		if !wideInt(v.Type()) {
+			return false
+		}
+		k := unconv(v)
+		if !isUnsigned(k.Type()) || !wideInt(k.Type()) {
+			return false
+		}
+		// the returned slice and the number of bytes it holds
+		res := r.Results[xe.Index]
+		rs, isSl := res.(*ssa.Slice)
+		remaining := func(m ssa.Value) bool {
+			if isLenOf(m, res) {
+				return true
+			}
+			if !isSl || rs.High != nil || rs.Max != nil {
+				return false
+			}
+			if rs.Low == nil {
+				return isLenOf(m, rs.X)
+			}
+			// buf[used:] with used the byte count of Uvarint(buf): 0 < used <= len(buf) by contract once used > 0 was tested
+			ue, isE := rs.Low.(*ssa.Extract)
+			if !isE || ue.Index != 1 {
+				return false
+			}
+			uc, isC := ue.Tuple.(*ssa.Call)
+			if !isC {
+				return false
+			}
+			if sc := ir.Callee(uc.Call); sc == nil || (sc.String() != "encoding/binary.Uvarint" && sc.String() != "encoding/binary.Varint") || len(uc.Call.Args) != 1 || uc.Call.Args[0] != rs.X {
+				return false
+			}
+			sub, isB := m.(*ssa.BinOp)
+			return isB && sub.Op == token.SUB && isLenOf(sub.X, rs.X) && sub.Y == ssa.Value(ue)
+		}
+		if !ir.FlowFact(r, func(f ir.Fact) bool {
+			bin, isBin := f.Cond.(*ssa.BinOp)
+			if !isBin {
+				return false
+			}
+			x, y, op := bin.X, bin.Y, bin.Op
+			if y == k {
+				x, y = y, x
+				switch op {
+				case token.LSS:
+					op = token.GTR
+				case token.GTR:
+					op = token.LSS
+				case token.LEQ:
+					op = token.GEQ
+				case token.GEQ:
+					op = token.LEQ
+				}
+			}
+			if x != k {
+				return false
+			}
+			if !f.Truth {
+				switch op {
+				case token.GTR:
+					op = token.LEQ
+				case token.GEQ:
+					op = token.LSS
+				default:
+					return false
+				}
+			}
+			if op != token.LEQ && op != token.LSS {
+				return false
+			}
+			// the unsigned comparison is against the (non-negative) number of bytes that remain
+			cv, isCv := y.(*ssa.Convert)
+			return isCv && isUnsigned(cv.Type()) && remaining(cv.X)
+		}, func(ssa.Instruction) bool { return false }) {
+			return false
+		}
+	}
+	return n > 0
 }
 
 func runQUEUED(c *Ctx) {
